@@ -11,48 +11,40 @@ namespace Unsized.C06
 open Common Unsized Unsized.Text Unsized.Machine
 
 /-
-FULL STATEMENT (`err_atomic`): for every op that resizes one container and every refusal schedule,
-`applyOp … = (m', .error _)` implies `m'.bytes = m.bytes` (hence `len`), `m'.orig = m.orig`.
-It is FALSE of the current code for `UnsizedList::insert` / `UnsizedMap::insert` with a fallible element
-initialiser (`ulist_init_fail_witness`, `set_data_inner_init_fail_witness` below — registered known
-findings). Proved for all `SupportedA2` non-composite ops (every op on `fixed`/`list`/`set`/`map`/`rem`/`ulist`/`struct`/`enum`
-nodes and `replace`/`reset` on every node kind, at any nesting depth). Missing: `umap` (in progress).
+`err_atomic` WITHOUT the hypothesis `e ≠ .initFail` is FALSE of the current code: `UnsizedList::insert` /
+`UnsizedMap::insert` with a fallible element initialiser fail after the resize and header rewrite
+(`ulist_init_fail_witness`, `set_data_inner_init_fail_witness` below — registered known findings). Without
+`composite op = false` it is false as well (`map_insert_all_partial_witness`, `str_set_partial_witness`);
+those ops satisfy `err_canonical`. With the two hypotheses it holds for EVERY op on EVERY node kind.
 -/
 
-/-- **Atomicity**: a covered single-container op that returns an error — index/range out of bounds,
+/-- **Atomicity**: ANY single-container op (every op of the op language that is not a loop of container
+steps), on any node kind at any nesting depth, that returns an error — index/range out of bounds,
 prefix overflow, growth refused by the schedule or beyond `orig + 10240` — leaves bytes, length,
 `orig` and the schedule exactly as they were. For EVERY refusal schedule. (`Err.initFail` = an
 initialiser failing behind the resize is the registered known finding, see the witnesses below.) -/
-theorem err_atomic_partial (s : Shape) (v : Val) (hok : s.ok = true) (hwf : WF s v = true) (m : Mem)
+theorem err_atomic (s : Shape) (v : Val) (hok : s.ok = true) (hwf : WF s v = true) (m : Mem)
     (hm : m.bytes = encode s v) (hsmall : m.orig + maxIncrease < Shape.u32Lim)
     (hlen : m.bytes.length ≤ m.orig + maxIncrease) (p : List Step) (op : Op)
-    (hsup : ∀ t u, resolve s v p = .ok (t, u) → SupportedA2 t op = true) (hnc : composite op = false)
+    (hnc : composite op = false)
     (m' : Mem) (e : Err) (hne : e ≠ .initFail) (h : applyOp s p op m = (m', .error e)) :
     m'.bytes = m.bytes ∧ m'.bytes.length = m.bytes.length ∧ m'.orig = m.orig ∧ m'.refuse = m.refuse := by
   simp only [WF, Bool.and_eq_true] at hwf
-  obtain ⟨h1, h2, h3⟩ := applyOp_atomic2 s v ⟨⟨true, false, hok⟩, hwf.1, hwf.2⟩ m hm ⟨hsmall, hlen⟩ p op hsup hnc m' e hne h
+  obtain ⟨h1, h2, h3⟩ := applyOp_atomic_all s v ⟨⟨true, false, hok⟩, hwf.1, hwf.2⟩ m hm ⟨hsmall, hlen⟩ p op hnc m' e hne h
   exact ⟨h1, by rw [h1], h2, h3⟩
 
-/-
-FULL STATEMENT (`err_canonical`): for EVERY op (incl. composite ones), on `err` the state still
-satisfies "canonical encoding of some `WF` value with matching length". Proved for the covered node
-kinds INCLUDING the composite ops `Set::insert_all`, `Map::insert_all` (value = the container with the
-first i new entries applied, `MachineAtomicSeq.lean`) and `UnsizedString::set` (old or empty string).
--/
-
-/-- **No corruption**: after an error of a covered op — single-container or composite, under EVERY
-refusal schedule — the buffer is still the canonical serialization (with exact length) of a
-well-formed value of the type, so by `Unsized.C01.history_refines_partial` later ops behave correctly. -/
-theorem err_canonical_partial (s : Shape) (v : Val) (hok : s.ok = true) (hwf : WF s v = true) (m : Mem)
+/-- **No corruption**: after an error of ANY op — single-container or composite (`Map/Set::insert_all`,
+`UnsizedString::set`), under EVERY refusal schedule — the buffer is still the canonical serialization (with exact length) of a
+well-formed value of the type, so by `Unsized.C01.history_refines` later ops behave correctly. -/
+theorem err_canonical (s : Shape) (v : Val) (hok : s.ok = true) (hwf : WF s v = true) (m : Mem)
     (hm : m.bytes = encode s v) (hsmall : m.orig + maxIncrease < Shape.u32Lim)
     (hlen : m.bytes.length ≤ m.orig + maxIncrease) (p : List Step) (op : Op)
-    (hsup : ∀ t u, resolve s v p = .ok (t, u) → SupportedA2 t op = true)
     (m' : Mem) (e : Err) (hne : e ≠ .initFail) (h : applyOp s p op m = (m', .error e)) :
     ∃ v', WF s v' = true ∧ m'.bytes = encode s v' ∧ m'.bytes.length = size s v'
       ∧ m'.orig = m.orig ∧ m'.refuse = m.refuse := by
   simp only [WF, Bool.and_eq_true] at hwf
   obtain ⟨v', g', hb, ho, hr⟩ := applyOp_err_canonical s v ⟨⟨true, false, hok⟩, hwf.1, hwf.2⟩ m hm ⟨hsmall, hlen⟩
-    p op hsup m' e hne h
+    p op m' e hne h
   exact ⟨v', by simp [WF, g'.valid, g'.fits], hb, by rw [hb, encode_size_all s v' g'.valid], ho, hr⟩
 
 /-! ## The known findings, as kernel-checked witnesses on the model of the code that exists -/
@@ -112,15 +104,14 @@ theorem str_set_partial_witness :
 
 /-! ## Non-vacuity -/
 
+example : composite (.push [9]) = false ∧ composite (.minsertAll []) = true := by decide
+
 /-- A refused growth at depth 3 (struct → ulist → struct → list): the hypotheses of
-`err_atomic_partial` hold and the op indeed fails with `InvalidRealloc`. -/
+`err_atomic` hold and the op indeed fails with `InvalidRealloc`. -/
 example : Unsized.C01.exS.ok = true ∧ WF Unsized.C01.exS Unsized.C01.exV = true
     ∧ failedWith (applyOp Unsized.C01.exS [.field 1, .elem 0, .field 0] (.push [9])
         (fresh Unsized.C01.exS Unsized.C01.exV [1])) .realloc = true := by
   decide +kernel
 
-example : SupportedA2 (.list (.pod 1) 1) (.push [9]) = true ∧ composite (.push [9]) = false := by decide
-example : SupportedA2 (.map 1 (.pod 1) 1) (.minsertAll []) = true := by decide
-example : SupportedA2 (.ulist (.list (.pod 1) 1)) (.uinsert 0 3) = true := by decide
 
 end Unsized.C06
